@@ -139,7 +139,8 @@ func c01Body(sc *WF) Verdict {
 			return bad("C01:no-callbacks", "run invoked no callback at all (action=%q err=%v)", rr.Action, rr.Err)
 		}
 		rootIsLeaf := sc.Nodes[sc.Root].Leaf != nil
-		if rr.Err == nil {
+		if rr.Err == nil && sc.depth(sc.Root) <= 1 {
+			// (flat flows only: which store a NESTED flow hands to its nodes is C10's clause)
 			// Behavioural form of "the very store given to the run" for nodes inside flows: every post
 			// of this run appended its leaf to the "path" key of the store it was handed; after a
 			// successful run the caller's store must hold exactly this run's path (a working copy
